@@ -24,7 +24,7 @@ func c01Equations() []Equation {
 	return []Equation{
 		{"miner-payout", VB, ne,
 			[]string{"{types.Block}.MinerPayouts[*].Value"},
-			[]string{"call (consensus.State).BlockReward({consensus.State})", "{types.Block}.Transactions[*].MinerFees[*]", "{types.Block}.V2.Transactions[*].MinerFee"},
+			[]string{"call (consensus.State).BlockReward({consensus.State})", "{types.Block}.Transactions[*].MinerFees[*]", "{types.Block}.V2.Transactions[*].MinerFee || call (types.Block).V2Transactions({types.Block})[*].MinerFee"},
 			"miner fees reappear exactly in the miner payout: payout = block reward + all v1 fees + all v2 fees"},
 		{"v1-siacoins", VT, ne,
 			[]string{sce},
